@@ -138,6 +138,7 @@ class Registry:
         self.ignore_calls = set()  # logger functions etc. treated as pass
         self.attr_models = {}     # (pytype, attrname) -> model(interp, obj)
         self.use_opaque = True
+        self.sym_methods = {}     # Sym subclass -> method model(interp, obj, name, args, kwargs)
 
     def model(self, f):
         def deco(fn):
@@ -156,6 +157,7 @@ class Interp:
         self.modular = modular
         self.top = top          # function object under verification (never replaced by its contract)
         self.depth = 0
+        ctx.interp = self
         self.trace_calls = []
         self.called_contracts = set()
         self.inlined = set()
@@ -335,7 +337,7 @@ class Interp:
         self.inlined.add('%s.%s' % (f.__module__, f.__qualname__))
         for d in getattr(node, 'decorator_list', []):
             dn = d.id if isinstance(d, ast.Name) else (d.attr if isinstance(d, ast.Attribute) else None)
-            if dn not in ('staticmethod', 'classmethod', 'property', 'deprecated', 'uf', 'spec', 'ghost'):
+            if dn not in ('staticmethod', 'classmethod', 'property', 'deprecated', 'uf', 'spec', 'ghost', 'setter', 'getter'):
                 if not (isinstance(d, ast.Call)):
                     raise Unsupported('decorator %s on %s' % (ast.dump(d)[:40], f.__qualname__))
         if any(isinstance(n, (ast.Yield, ast.YieldFrom, ast.Await)) for n in ast.walk(node)):
@@ -394,7 +396,7 @@ class Interp:
             return models.call_builtin_type(self, cls, args, kwargs)
         if isinstance(cls, type) and issubclass(cls, BaseException):
             try:
-                return cls(*[a if not isinstance(a, Sym) else '<symbolic>' for a in args])
+                return cls(*[a if is_concrete(a) else '<symbolic>' for a in args])
             except Exception as e:
                 raise PyRaise(e, implicit=True)
         if is_concrete(args) and is_concrete(kwargs) and cls not in self.reg.contracts:
